@@ -3,6 +3,7 @@
 package tb
 
 import (
+	"runtime"
 	"fmt"
 	"os"
 	"sort"
@@ -163,7 +164,7 @@ func (s *sched) do(op func() error, early bool) error {
 			idle++
 			if idle > 3100 { // > 31 s: longer than any request timeout (20 s)
 				s.stuck = "operation blocked for 31 s of virtual time with nothing deliverable"
-				return fmt.Errorf("%s", s.stuck)
+				return fmt.Errorf("%s\n%s", s.stuck, blockedStacks())
 			}
 			time.Sleep(10 * time.Millisecond)
 			continue
@@ -196,7 +197,28 @@ func (s *sched) doAck(op func() error) error {
 		time.Sleep(10 * time.Millisecond)
 	}
 	s.stuck = "operation blocked for 31 s of virtual time with nothing deliverable"
-	return fmt.Errorf("%s", s.stuck)
+	return fmt.Errorf("%s\n%s", s.stuck, blockedStacks())
+}
+
+// blockedStacks: the goroutines of the process that are inside simpleiot or harness code (for the record of a
+// give-up: what was everybody waiting for).
+func blockedStacks() string {
+	buf := make([]byte, 1<<20)
+	buf = buf[:runtime.Stack(buf, true)]
+	var keep []string
+	for _, g := range strings.Split(string(buf), "\n\n") {
+		if strings.Contains(g, "simpleiot/") || strings.Contains(g, "verif/h/") {
+			lines := strings.Split(g, "\n")
+			if len(lines) > 13 {
+				lines = lines[:13]
+			}
+			keep = append(keep, strings.Join(lines, "\n"))
+		}
+		if len(keep) >= 12 {
+			break
+		}
+	}
+	return "goroutines:\n" + strings.Join(keep, "\n\n")
 }
 
 // run advances virtual time by d in 10 ms steps, granting deliveries as they appear.
